@@ -266,13 +266,17 @@ class AbstractDateTime(AnyAtomicType):
                     if op is not operator.eq:
                         raise TypeError("wrong type %r for operand %r" % (type(other), other))
 
+            if op is not operator.eq and self.name.startswith('g'):
+                raise TypeError("type %r has no order relation" % type(self))  # gYear, gMonth, ...
             dt, year = other._dt, other._year
+        elif isinstance(other, UntypedAtomic):
+            return self._compare(type(self).fromstring(other.value), op)
         elif op is operator.eq:
             return False
         else:
             raise TypeError("wrong type %r for operand %r" % (type(other), other))
 
-        if self._year != year:
+        if self._year != year and not (1 <= self._year <= 9999 and 1 <= year <= 9999):
             return op(self._year, year)
         elif self._dt.tzinfo is dt.tzinfo:
             return op(self._dt, dt)
